@@ -167,12 +167,12 @@ def sharedWrites : List String := [
 
 /-- the same assignments by package, type written through and path (independent of function and parameter names) -/
 def sharedWriteKinds : List String := [
-  "extensions/nyctalerts: *proto.Alert: .Cause",
-  "extensions/nyctalerts: *proto.Alert: .DescriptionText",
-  "extensions/nyctalerts: *proto.Alert: .Effect",
-  "extensions/nyctalerts: *string: *",
   "extensions/nyctalerts: nyctalerts.extension: .elevatorAlerts[]",
-  "gtfs: *gtfs.ParseRealtimeOptions: .Extension"]
+  "extensions/nyctalerts: proto.Alert: .Cause",
+  "extensions/nyctalerts: proto.Alert: .DescriptionText",
+  "extensions/nyctalerts: proto.Alert: .Effect",
+  "extensions/nyctalerts: string: *",
+  "gtfs: gtfs.ParseRealtimeOptions: .Extension"]
 
 /-- ParseRealtime asks a PerMessageExtension for a fresh instance per message -/
 def parseRealtimeUsesForMessage : Bool := true
